@@ -25,6 +25,21 @@ ASSUMPTIONS = [
 def cases(d):
     prog = tree.gen_tree(d, max_rand_bits=10)
     writes = tree.add_callbacks(d, prog)
+    # class hierarchies: for some classes the scalar fields live in a base randobj class WITHOUT callbacks and the
+    # callbacks (and constraint blocks) are added by the derived randobj class
+    newcls = []
+    for c in prog["classes"]:
+        if c["fields"] and d.chance(35):
+            base = {"name": "B_" + c["name"], "fields": c["fields"], "blocks": []}
+            if d.chance(30):
+                # ... or the base defines only one of the two callbacks
+                base["pre_randomize"] = c["pre_randomize"]
+                c["pre_randomize"] = None
+            c["fields"] = []
+            c["base"] = base["name"]
+            newcls.append(base)
+        newcls.append(c)
+    prog["classes"] = newcls
     types, stmts, ns = tree.flatten(prog)
     allf = [dict(f, name=k) for k, f in types.items()]
     inline = None
@@ -158,6 +173,8 @@ def body(case, acc):
         acc.label("object list")
     if any(case["writes"].values()):
         acc.label("pre_randomize writes a constant")
+    if any(c.get("base") for c in case["prog"]["classes"]):
+        acc.label("callbacks added by a derived randobj class")
     return vios
 
 
